@@ -290,10 +290,58 @@ def r15e(F):
 	# acts refuse a wrong version byte / wrong state
 	return out
 
+def r15f(F):
+	"""partial socket writes resume exactly where the previous one stopped"""
+	out = []
+	fn = PM + 'do_attempt_write_data'
+	fu = F.func(fn)
+	ex = Expr(fu)
+	out += P3_field_census(F, '15.f', PH + 'Peer.pending_outbound_buffer_first_msg_offset', [fn], kinds=('w', 'wi'), floor=2)
+	adv, rst, other = [], [], []
+	for bi, si, s in fu.stmts():
+		fl = place_fields(s[1])
+		if not fl or fl[-1] != 'pending_outbound_buffer_first_msg_offset':
+			continue
+		e = ex.of_rvalue(s[2])
+		if e[0] == 'const' and e[1] == 0:
+			rst.append(bi)
+			continue
+		terms, k = linear(e)
+		own = [v for v in terms if v.endswith('pending_outbound_buffer_first_msg_offset')]
+		sent = [v for v in terms if 'send_data' in v or 'data_sent' in v]
+		if k == 0 and len(terms) == 2 and len(own) == 1 and len(sent) == 1 and terms[own[0]] == 1 and terms[sent[0]] == 1:
+			adv.append(bi)
+		else:
+			other.append((s[0], expr_str(e)[:80]))
+	ok = len(adv) == 1 and len(rst) == 1 and not other
+	out.append(Result('15.f', ok, ('ok:' if ok else 'offset:') + 'write-offset-arithmetic', 'the offset into the message being written is advanced by the number of bytes the socket accepted (old + data_sent) and reset to 0 only when the message is complete%s' % ('' if not other else '; other stores: %s' % other), len(adv) + len(rst) + len(other), where=F.where(fn)))
+	# the reset happens only when the whole buffer went out, and then the buffer is popped
+	gs = [Guard(fu, c) for c in comparisons(fu)]
+	done = [g for g in gs if g.op == 'Eq' and any(v.endswith('pending_outbound_buffer_first_msg_offset') for v in g.nf[0]) and any('len(' in v for v in g.nf[0])]
+	def _recv_field(b):
+		r = ex.of_operand(fu.blocks[b]['t'][2]['args'][0])
+		while r[0] in ('ref', 'deref'):
+			r = r[1]
+		return r[2] if r[0] == 'field' else None
+	pop = {b for b in fu.call_blocks(lambda p: p.endswith('VecDeque::pop_front')) if _recv_field(b) == 'pending_outbound_buffer'}
+	if len(done) != 1 or not pop or not rst:
+		out.append(Result('15.f', False, 'guard:message-complete', 'do_attempt_write_data: the `offset == buffer.len()` test / pop_front / reset was not found', len(done), where=F.where(fn)))
+	else:
+		out += P4_guarded(F, '15.f', fu, set(rst) | pop, done[0].decisions, True, 'whole message written', key='pop-only-when-complete')
+	# the slice handed to the socket starts at the offset
+	sd = fu.call_blocks(lambda p: p.endswith('SocketDescriptor::send_data'))
+	oks = False
+	for b in sd:
+		a = ex.of_operand(fu.blocks[b]['t'][2]['args'][1])
+		oks = 'pending_outbound_buffer_first_msg_offset' in expr_leaves(a)['fields']
+	out.append(Result('15.f', oks, ('ok:' if oks else 'shape:') + 'send-from-offset', 'send_data is given the buffer from the current offset on', len(sd), where=F.where(fn)))
+	return out
+
 RULES = [
 	('15.a', 'nothing is handed to the handlers before Init; second Init / non-Init first message / handler refusal end in Err', r15a),
 	('15.b', 'protocol handler methods are reached only downstream of the Init gate', r15b),
 	('15.c', 'do_read_event: every handshake / decrypt / decode result is branched on; the body reaches handle_message only on success', r15c),
 	('15.d', 'AEAD discipline: same rotation threshold both ways, nonce +1 per operation (receive: after authentication), MAC failure is an error, size limits', r15d),
+	('15.f', 'outbound stream: partial writes resume at old offset + bytes accepted; a message is popped only when complete', r15f),
 	('15.e', 'messages are encrypted / decrypted only in NoiseState::Finished, entered only by an authenticated act', r15e),
 ]
